@@ -8,7 +8,7 @@ From Ink.Gen Require Import EngineGen.
 Definition sw_now : switches :=
   mkSwitches alias_current warnings_cleared observer_removal_checked remove_flow_checked
              seed_ovf_panics cont_check_first path_validated_first eval_args_first ext_guard_fixed
-             guard_setvar guard_remove_flow guard_switch_default guard_load.
+             guard_setvar guard_remove_flow guard_switch_default guard_load counter_dec_first.
 
 Lemma now_cont_check_first : sw_cont_check_first sw_now = true.          Proof. reflexivity. Qed.
 Lemma now_path_validated_first : sw_path_validated_first sw_now = true.  Proof. reflexivity. Qed.
@@ -23,3 +23,4 @@ Lemma now_guard_switch_default : sw_guard_switch_default sw_now = true.  Proof. 
 Lemma now_guard_load : sw_guard_load sw_now = true.                      Proof. reflexivity. Qed.
 Lemma now_seed_wraps : sw_ovf_panics sw_now = false.                     Proof. reflexivity. Qed.
 Lemma now_no_alias : sw_alias_current sw_now = false.                   Proof. reflexivity. Qed.
+Lemma now_counter_dec_first : sw_counter_dec_first sw_now = true.       Proof. reflexivity. Qed.
